@@ -83,7 +83,16 @@ def _convert_returns(stmts: List[ast.stmt], cont: List[ast.stmt], target: Option
     for i, st in enumerate(stmts):
         rest = stmts[i + 1:]
         if isinstance(st, ast.Return):
-            if target is not None:
+            if target is not None and isinstance(target, ast.Tuple) and isinstance(st.value, ast.Tuple) and len(target.elts) == len(st.value.elts) \
+                    and not any(isinstance(x, ast.Starred) for x in target.elts + st.value.elts):
+                # a, b = helper(...) with `return x, y`: element-wise, through temporaries (all of x, y are evaluated before a or b is bound)
+                _convert_returns.counter = getattr(_convert_returns, "counter", 0) + 1
+                tmps = [f"_ret{k}__r{_convert_returns.counter}" for k in range(len(target.elts))]
+                for nm, v in zip(tmps, st.value.elts):
+                    out.append(ast.Assign(targets=[ast.Name(id=nm, ctx=ast.Store())], value=v))
+                for t_, nm in zip(target.elts, tmps):
+                    out.append(ast.Assign(targets=[_clone(t_)], value=ast.Name(id=nm, ctx=ast.Load())))
+            elif target is not None:
                 out.append(ast.Assign(targets=[_clone(target)], value=st.value if st.value is not None else ast.Constant(value=None)))
             elif st.value is not None and _has(st.value, ast.Call):
                 out.append(ast.Expr(value=st.value))
@@ -190,7 +199,7 @@ class Expander:
             return None
         if qual in self.known or h is caller:
             return None
-        if h.decorator_list and not all(ast.unparse(d) == "staticmethod" for d in h.decorator_list):
+        if h.decorator_list and not all(ast.unparse(d) in ("staticmethod", "classmethod") for d in h.decorator_list):
             return None
         if _has(h, (ast.Yield, ast.YieldFrom, ast.Await, ast.Global, ast.Nonlocal)) or any(isinstance(x, (ast.FunctionDef, ast.ClassDef, ast.AsyncFunctionDef)) and x is not h for x in ast.walk(h)):
             return None
@@ -416,16 +425,34 @@ def loops_to_comprehensions(tree: ast.AST):
     """`d = {}` directly followed by `for T in IT:` whose body is only filters (guard clauses `if c: continue`, nested `if c:`
     without else) around ONE `d[K] = V` - or `l = []` ... `l.append(V)` - is the comprehension `{K: V for T in IT if ...}`
     (same iteration order, same short-circuit order of the tests, later keys overwrite earlier ones in both)."""
-    def flatten(body, conds):
+    def flatten(body, conds, temps=None):
+        temps = dict(temps or {})
         if not body:
             return None
         first, rest = body[0], body[1:]
+        # a temporary of the iteration (`t = expr`, single plain local) is substituted into what follows
+        if rest and isinstance(first, ast.Assign) and len(first.targets) == 1 and isinstance(first.targets[0], ast.Name) and not isinstance(first.value, (ast.Yield, ast.Await)):
+            nm = first.targets[0].id
+            if nm not in temps and not any(isinstance(x, ast.Name) and x.id == nm and isinstance(x.ctx, ast.Store) for st in rest for x in ast.walk(st)):
+                try:
+                    val = _Renamer({k: v for k, v in temps.items()}).visit(_clone(first.value)) if temps else _clone(first.value)
+                except _Unsupported:
+                    return None
+                temps[nm] = val
+                try:
+                    rest2 = [_Renamer({nm: val}).visit(_clone(st)) for st in rest]
+                except _Unsupported:
+                    return None
+                r = flatten(rest2, conds, temps)
+                if r is not None:
+                    r[2].add(nm)
+                return r
         if isinstance(first, ast.If) and not first.orelse and len(first.body) == 1 and isinstance(first.body[0], ast.Continue):
-            return flatten(rest, conds + [ast.UnaryOp(op=ast.Not(), operand=first.test)])
+            return flatten(rest, conds + [ast.UnaryOp(op=ast.Not(), operand=first.test)], temps)
         if isinstance(first, ast.If) and not first.orelse and not rest:
-            return flatten(first.body, conds + [first.test])
+            return flatten(first.body, conds + [first.test], temps)
         if not rest and isinstance(first, (ast.Assign, ast.Expr)):
-            return conds, first
+            return conds, first, set()
         return None
     for fn in [n for n in ast.walk(tree) if isinstance(n, ast.FunctionDef)]:
         for owner in ast.walk(fn):
@@ -433,6 +460,22 @@ def loops_to_comprehensions(tree: ast.AST):
                 blk = getattr(owner, field, None)
                 if not (isinstance(blk, list) and blk and isinstance(blk[0], ast.stmt)):
                     continue
+                # bring `d = {}` / `l = []` next to the loop that fills it when nothing in between mentions it
+                for k_ in range(len(blk)):
+                    lp_ = blk[k_]
+                    if not isinstance(lp_, ast.For):
+                        continue
+                    for j_ in range(k_ - 2, -1, -1):
+                        cand = blk[j_]
+                        if isinstance(cand, ast.Assign) and len(cand.targets) == 1 and isinstance(cand.targets[0], ast.Name):
+                            nm_ = cand.targets[0].id
+                            v_ = cand.value
+                            empty = (isinstance(v_, (ast.Dict, ast.List)) and not (getattr(v_, "keys", None) or getattr(v_, "elts", None))) or \
+                                (isinstance(v_, ast.Call) and isinstance(v_.func, ast.Name) and v_.func.id in ("dict", "list") and not v_.args and not v_.keywords)
+                            if empty and any(isinstance(x, ast.Name) and x.id == nm_ for x in ast.walk(lp_)) and not any(isinstance(x, ast.Name) and x.id == nm_ for m_ in blk[j_ + 1:k_] for x in ast.walk(m_)) \
+                                    and not any(isinstance(m_, (ast.For, ast.While, ast.If, ast.Try, ast.With, ast.Return)) for m_ in blk[j_ + 1:k_]):
+                                blk.insert(k_ - 1, blk.pop(j_))
+                                break
                 i = 0
                 while i + 1 < len(blk):
                     init, loop = blk[i], blk[i + 1]
@@ -466,7 +509,9 @@ def loops_to_comprehensions(tree: ast.AST):
                     fl = flatten(loop.body, [])
                     if fl is None:
                         continue
-                    conds, store = fl
+                    conds, store, used_temps = fl
+                    if used_temps and any(isinstance(x, ast.Name) and x.id in used_temps and isinstance(x.ctx, ast.Load) for st in blk[i + 1:] for x in ast.walk(st)):
+                        continue          # a temporary of the loop is read after it
                     if any(isinstance(x, ast.Name) and x.id == d for c in conds for x in ast.walk(c)) or any(isinstance(x, ast.Name) and x.id == d for x in ast.walk(loop.iter)):
                         continue
                     comp = None
